@@ -30,6 +30,8 @@ mod util;
 mod vardct;
 #[cfg(jxl_oxide_verif)]
 pub mod verif_sync;
+#[cfg(jxl_oxide_verif)]
+pub use vardct::verif as verif_vardct;
 
 pub use error::{Error, Result};
 pub use features::render_spot_color;
